@@ -325,11 +325,8 @@ func ruleLibMust(c *Ctx, r *R) {
 				}
 				allConst := true
 				for _, a := range call.Call.Args {
-					if inner, ok := a.(*ssa.Call); ok {
-						if ic := inner.Call.StaticCallee(); ic != nil && ic.Pkg != nil && ic.Pkg.Pkg.Path() == "regexp" && ic.Name() == "QuoteMeta" {
-							continue // sanitised: QuoteMeta output always compiles
-						}
-					}
+					// regexp.QuoteMeta is no sanitiser here: quoted text that is not valid UTF-8 (a string handed over from Go)
+					// still fails to compile
 					if _, isC := a.(*ssa.Const); !isC {
 						// template.Must(x, err)-style wrappers take call results: treat non-constants as dynamic
 						allConst = false
